@@ -1024,6 +1024,36 @@ class RangeEngine(Engine):
             d, sr = P.lin(('term', 'len', [dv(0)])), P.lin(('term', 'len', [dv(1)]))
             self.site(fn, 'copy_from_slice', 'lengths', [d.add(sr, -1), sr.add(d, -1)] if d is not None and sr is not None else None, s, t)
             return one(UNIT)
+        if c == 'core::slice::<impl [T]>::get' and len(args) == 2 and self._range_of(dv(1)) is not None and self._range_of(dv(1))[2] is False:
+            # s.get(a..b) / s.get(a..) / s.get(..b): Some(&s[a..b]) iff a ≤ b ≤ len(s) — the decision an explicit bounds test would record, and the
+            # sub-slice the indexing form would yield (never panics)
+            base = dv(0)
+            lo, hi, _inc = self._range_of(dv(1))
+            ln = ('term', 'len', [base])
+            lo_ = lo if lo is not None else C(0)
+            hi_ = hi if hi is not None else ln
+            conds = []
+            if hi is not None:
+                conds.append(('term', 'Le', [hi_, ln]))
+            if lo is not None:
+                conds.append(('term', 'Le', [lo_, hi_]))
+            some = self.adt_val('core::option::Option', 'Some', [('term', 'subslice', [base, lo_, hi_])])
+            none = self.adt_val('core::option::Option', 'None')
+            if len(conds) == 1:
+                atom = conds[0]
+                f = s.facts.get(key(atom))
+                outs_ = []
+                for val in (1, 0):
+                    if isinstance(f, int) and f != val:
+                        continue
+                    s2 = s if (val == 0 or isinstance(f, int)) else s.fork()
+                    if not isinstance(f, int):
+                        s2.facts[key(atom)] = val
+                        s2.decisions.append((atom, val, (fn['path'], t['sp']['line'])))
+                    outs_.append((some if val else none, s2))
+                if len(outs_) == 2:
+                    self.npaths += 1
+                return outs_
         if c in ('core::slice::<impl [T]>::first', 'core::slice::<impl [T]>::last', 'core::slice::<impl [T]>::get'):
             return one(('term', 'call:slice::' + nm, [dv(i) for i in range(len(args))]))
         if c == 'core::slice::<impl [T]>::to_vec' or c == 'alloc::slice::<impl [T]>::to_vec':
